@@ -62,6 +62,9 @@ func main() {
 		if os.Getenv("C39_DEBUG") != "" {
 			lvl = log.LevelDebug
 		}
+		if os.Getenv("C39_QUIET") != "" {
+			lvl = log.LevelCrit // as in a run: log output changes the timing of background goroutines
+		}
 		log.SetDefault(log.NewLogger(log.NewTerminalHandlerWithLevel(os.Stderr, lvl, false)))
 		os.Setenv("C39_OPLOG_OVERRIDE", filepath.Join(d, "oplog"))
 		v := checkState(d)
@@ -580,7 +583,30 @@ func checkState(dir string) (v Verdict) {
 	}
 	v.Reimport = len(rest)
 	if len(rest) > 0 {
-		if _, err := bc.InsertChain(rest); err != nil {
+		if idx, err := bc.InsertChain(rest); err != nil {
+			// diagnostics: what the accessors say about the failing block's parent right now
+			diag := ""
+			if idx < len(rest) && rest[idx].NumberU64() > 0 {
+				ph, pn := rest[idx].ParentHash(), rest[idx].NumberU64()-1
+				fz, _ := db.Ancients()
+				diag = fmt.Sprintf(" [failed at block %d; parent %d: ReadHeader=%v ReadBody=%v HasHeader=%v HasBody=%v HasState=%v canonical=%v frozen=%d]", rest[idx].NumberU64(), pn,
+					rawdb.ReadHeader(db, ph, pn) != nil, rawdb.ReadBody(db, ph, pn) != nil, rawdb.HasHeader(db, ph, pn), rawdb.HasBody(db, ph, pn),
+					bc.HasState(m.ByHash[ph].Root()), rawdb.ReadCanonicalHash(db, pn) == ph, fz)
+			}
+			err = fmt.Errorf("%v%s", err, diag)
+			// The re-opened database runs its chain freezer in the background. While it moves
+			// a block, rawdb.HasHeader/HasBody (not atomic with the migration, see C25
+			// has-accessor-transient-miss) can report a present parent as missing, and the
+			// import fails with "unknown ancestor". Such a failure disappears once the freezer
+			// is quiescent: retry then; a failure that stays is a violation of its own.
+			if strings.Contains(err.Error(), "unknown ancestor") {
+				if fz, ok := db.(freezer); ok {
+					fz.Freeze()
+				}
+				if _, err2 := bc.InsertChain(rest); err2 == nil && bc.CurrentBlock().Hash() == final.Hash() && bc.HasState(final.Root()) {
+					return bad("reimport-transient-unknown-ancestor-during-background-freeze", "InsertChain(%d..%d) after recovery (head was %d) failed while the background freezer was migrating blocks and succeeded when retried after Freeze() returned: %v", rest[0].NumberU64(), final.NumberU64(), v.Head, err)
+				}
+			}
 			return bad("reimport-failed", "InsertChain(%d..%d) after recovery (head was %d): %v", rest[0].NumberU64(), final.NumberU64(), v.Head, err)
 		}
 	}
